@@ -354,3 +354,215 @@ def literal_twin(rng, name):
     meta = {"id": "littwin", "nargs": len(fd.args.args), "in_bits": 4, "ret_bool": ast.unparse(fd.returns) == "bool",
             "argsig": [[a.arg, ast.unparse(a.annotation)] for a in fd.args.args], "retsig": ast.unparse(fd.returns), "t": 0.01, "outcome": "ok"}
     return src, meta
+
+
+# ---------------------------------------------------------------- near-twins by AST mutation
+# A near-twin of a program keeps most of what a partial cache key could be made of (name, argument names,
+# source shape, literals as Python values, bit widths) and changes one thing.  C10 needs no semantic
+# oracle, so any mutant is admissible: a mutant the library refuses is simply a rejected operation.
+# Never introduces * ** // % (compile time) and never changes the number of arguments.
+_ARITH = [ast.Add, ast.Sub, ast.BitXor, ast.BitAnd, ast.BitOr]
+_CMP = [ast.Eq, ast.NotEq, ast.Lt, ast.LtE, ast.Gt, ast.GtE]
+_SAME_WIDTH = [["Qint[2]", "Qint2", "Tuple[bool, bool]", "Qlist[bool, 2]"],
+               ["Qint[4]", "Qint4", "Qfixed[2, 2]", "Tuple[Qint[2], Qint[2]]", "Qlist[Qint[2], 2]", "Qlist[bool, 4]"],
+               ["Qint[3]", "Qint3", "Qfixed[1, 2]", "Tuple[bool, bool, bool]", "Qlist[bool, 3]"],
+               ["Qint[8]", "Qint8", "Qchar", "Qfixed[4, 4]", "Qlist[Qint[4], 2]"]]
+MUTATIONS = ["lit_retype", "lit_value", "op_swap", "cmp_swap", "boolop_swap", "negate", "alias", "ret_split", "if_wrap", "ifexp_wrap",
+             "arg_retype", "arg_swap", "dup_stmt", "ret_retype", "local_rename"]
+
+
+def _norm_ann(s):
+    return s.replace(" ", "")
+
+
+class _Sites(ast.NodeVisitor):
+    def __init__(self):
+        self.nums, self.bools, self.binops, self.cmps, self.boolops, self.names = [], [], [], [], [], []
+
+    def visit_Constant(self, n):
+        if isinstance(n.value, bool):
+            self.bools.append(n)
+        elif isinstance(n.value, (int, float)):
+            self.nums.append(n)
+
+    def visit_Subscript(self, n):
+        # indices and annotation-like subscripts are left alone (a[1] -> a[1.0] is only noise)
+        self.visit(n.value)
+
+    def visit_BinOp(self, n):
+        if type(n.op) in _ARITH:
+            self.binops.append(n)
+        self.generic_visit(n)
+
+    def visit_Compare(self, n):
+        if len(n.ops) == 1 and type(n.ops[0]) in _CMP:
+            self.cmps.append(n)
+        self.generic_visit(n)
+
+    def visit_BoolOp(self, n):
+        self.boolops.append(n)
+        self.generic_visit(n)
+
+    def visit_Name(self, n):
+        if isinstance(n.ctx, ast.Load):
+            self.names.append(n)
+
+
+def mutate(src, meta, rng, kind=None, exclude=()):
+    """returns (src', meta', kind) -- a near-twin of src under the same name -- or None"""
+    try:
+        tree = ast.parse(src)
+        fd = tree.body[0]
+        if not isinstance(fd, ast.FunctionDef) or not fd.body:
+            return None
+    except Exception:
+        return None
+    fd.decorator_list = []
+    argn = [a.arg for a in fd.args.args]
+    boolargs = [a.arg for a in fd.args.args if a.annotation is not None and ast.unparse(a.annotation) == "bool"]
+    sites = _Sites()
+    for st in fd.body:
+        sites.visit(st)
+    kinds = [kind] if kind else [k for k in rng.sample(MUTATIONS, len(MUTATIONS)) if k not in exclude]
+    meta2 = dict(meta)
+    for k in kinds:
+        done = False
+        if k == "lit_retype" and (sites.nums or sites.bools):
+            n = rng.choice(sites.nums + sites.bools)
+            v = n.value
+            if isinstance(v, bool):
+                n.value = int(v)
+            elif isinstance(v, int):
+                n.value = float(v) if (v > 1 or rng.random() < 0.5) else bool(v)
+            elif isinstance(v, float) and v == int(v):
+                n.value = int(v)
+            done = n.value is not v and type(n.value) is not type(v)
+        elif k == "lit_value" and sites.nums:
+            n = rng.choice(sites.nums)
+            if isinstance(n.value, int):
+                n.value = max(0, n.value + rng.choice([-1, 1, 1, 2]))
+                done = True
+        elif k == "op_swap" and sites.binops:
+            n = rng.choice(sites.binops)
+            n.op = rng.choice([o for o in _ARITH if o is not type(n.op)])()
+            done = True
+        elif k == "cmp_swap" and sites.cmps:
+            n = rng.choice(sites.cmps)
+            n.ops = [rng.choice([o for o in _CMP if o is not type(n.ops[0])])()]
+            done = True
+        elif k == "boolop_swap" and sites.boolops:
+            n = rng.choice(sites.boolops)
+            n.op = ast.Or() if isinstance(n.op, ast.And) else ast.And()
+            done = True
+        elif k == "negate" and (sites.cmps or sites.boolops):
+            n = rng.choice(sites.cmps + sites.boolops)
+            inner = ast.parse(ast.unparse(n), mode="eval").body
+            new = ast.UnaryOp(op=ast.Not(), operand=inner)
+            for f in list(n._fields):
+                delattr(n, f) if hasattr(n, f) else None
+            n.__class__ = ast.UnaryOp
+            n.op, n.operand = new.op, new.operand
+            done = True
+        elif k == "alias" and argn:
+            # a local that copies an argument, named like an argument elsewhere in the pool; one later use goes through it
+            a = rng.choice(argn)
+            free = [x for x in ARG_NAMES if x not in argn]
+            uses = [n for n in sites.names if n.id == a]
+            if free and uses:
+                t = rng.choice(free)
+                rng.choice(uses).id = t
+                fd.body.insert(0, ast.parse(f"{t} = {a}").body[0])
+                done = True
+        elif k == "ret_split" and isinstance(fd.body[-1], ast.Return) and fd.body[-1].value is not None and not isinstance(fd.body[-1].value, ast.Name):
+            t = rng.choice(["r", "res", "_ret", "x0", "out"])
+            if t not in argn:
+                e = fd.body[-1].value
+                fd.body[-1:] = [ast.Assign(targets=[ast.Name(id=t, ctx=ast.Store())], value=e), ast.Return(value=ast.Name(id=t, ctx=ast.Load()))]
+                done = True
+        elif k == "if_wrap" and boolargs and isinstance(fd.body[-1], ast.Return) and fd.body[-1].value is not None:
+            e = ast.unparse(fd.body[-1].value)
+            m = mutate(f"def _(): return {e}", {}, rng, kind=rng.choice(["op_swap", "cmp_swap", "lit_value", "boolop_swap", "negate"]))
+            e2 = ast.unparse(ast.parse(m[0]).body[0].body[-1].value) if m else e
+            b = rng.choice(boolargs)
+            t = rng.choice(["r", "res", "out"])
+            if t not in argn:
+                form = rng.randrange(3)
+                if form == 0:
+                    code = f"{t} = {e}\nif {b}:\n    {t} = {e2}\nreturn {t}"
+                elif form == 1:
+                    code = f"{t} = {e}\nif {b}:\n    {t} = {e2}\nelse:\n    {t} = {e}\nreturn {t}"
+                else:
+                    code = f"{t} = {e2}\nif not {b}:\n    {t} = {e}\nreturn {t}"
+                fd.body[-1:] = ast.parse(code).body
+                done = True
+        elif k == "ifexp_wrap" and boolargs and isinstance(fd.body[-1], ast.Return) and fd.body[-1].value is not None:
+            e = ast.unparse(fd.body[-1].value)
+            m = mutate(f"def _(): return {e}", {}, rng, kind=rng.choice(["op_swap", "cmp_swap", "lit_value", "boolop_swap", "negate"]))
+            e2 = ast.unparse(ast.parse(m[0]).body[0].body[-1].value) if m else e
+            b = rng.choice(boolargs)
+            fd.body[-1] = ast.parse(f"return ({e}) if {b} else ({e2})").body[0]
+            done = True
+        elif k == "arg_retype" and fd.args.args:
+            cand = []
+            for i, a in enumerate(fd.args.args):
+                if a.annotation is None:
+                    continue
+                s = _norm_ann(ast.unparse(a.annotation))
+                for fam in _SAME_WIDTH:
+                    if s in [_norm_ann(x) for x in fam]:
+                        cand.append((i, [x for x in fam if _norm_ann(x) != s]))
+            if cand:
+                i, alts = rng.choice(cand)
+                t = rng.choice(alts)
+                fd.args.args[i].annotation = ast.parse(t, mode="eval").body
+                done = True
+        elif k == "ret_retype" and fd.returns is not None:
+            s = _norm_ann(ast.unparse(fd.returns))
+            for fam in _SAME_WIDTH:
+                if s in [_norm_ann(x) for x in fam]:
+                    fd.returns = ast.parse(rng.choice([x for x in fam if _norm_ann(x) != s]), mode="eval").body
+                    done = True
+                    break
+        elif k == "arg_swap" and len(fd.args.args) >= 2:
+            anns = {}
+            for i, a in enumerate(fd.args.args):
+                if a.annotation is not None:
+                    anns.setdefault(_norm_ann(ast.unparse(a.annotation)), []).append(i)
+            same = [v for _, v in sorted(anns.items()) if len(v) >= 2]
+            if same:
+                i, j = rng.sample(rng.choice(same), 2)
+                fd.args.args[i], fd.args.args[j] = fd.args.args[j], fd.args.args[i]
+                done = True
+        elif k == "dup_stmt":
+            ass = [i for i, st in enumerate(fd.body) if isinstance(st, ast.Assign)]
+            if ass:
+                i = rng.choice(ass)
+                fd.body.insert(i + 1, ast.parse(ast.unparse(fd.body[i])).body[0])
+                done = True
+        elif k == "local_rename":
+            locs = sorted({t.id for st in ast.walk(fd) if isinstance(st, ast.Assign) for t in st.targets if isinstance(t, ast.Name)} - set(argn))
+            free = [x for x in ARG_NAMES + ["r", "s", "t"] if x not in argn and x not in locs]
+            if locs and free:
+                old, new = rng.choice(locs), rng.choice(free)
+                for n in ast.walk(fd):
+                    if isinstance(n, ast.Name) and n.id == old:
+                        n.id = new
+                done = True
+        if done:
+            try:
+                ast.fix_missing_locations(tree)
+                out = ast.unparse(tree) + "\n"
+                ast.parse(out)
+            except Exception:
+                return None
+            if out.strip() == ast.unparse(ast.parse(src)).strip():
+                return None
+            fd2 = ast.parse(out).body[0]
+            meta2["argsig"] = [[a.arg, ast.unparse(a.annotation) if a.annotation else None] for a in fd2.args.args]
+            meta2["retsig"] = ast.unparse(fd2.returns) if fd2.returns else None
+            meta2["ret_bool"] = meta2["retsig"] == "bool"
+            meta2["id"] = "mut:" + k
+            meta2["mutant_of"] = meta.get("id")
+            meta2.pop("twin", None)
+            return out, meta2, k
+    return None
